@@ -3,3 +3,6 @@ import GraphrsModel.Model.Store
 import GraphrsModel.Model.Query
 import GraphrsModel.Spec.Abs
 import GraphrsModel.Obs
+import GraphrsModel.Model.Dijkstra
+import GraphrsModel.Spec.Paths
+import GraphrsModel.Model.Centrality
